@@ -480,7 +480,7 @@ def stripBranch (C : Circ) : Circ :=
 inductive BStmt
   | intf (names : List String)
   | gate (name kind : String) (drivers : List String)
-deriving Repr, Inhabited
+deriving DecidableEq, Repr, Inhabited
 
 def getOrAddFork (C : Circ) (n : String) : Circ := if C.isFork n then C else C.addFork n
 
